@@ -3,14 +3,24 @@
    VolumeIncrementalCopy) into a real backup volume; after every backup run every key
    is read on both sides.  AppendAtNs values are inputs (the harness overwrites the 8
    timestamp bytes of each record the real write path appended). *)
-From Coq Require Import List NArith Bool.
+From Coq Require Import List NArith ZArith Bool.
 From SW Require Export base.Verdict model.Backup.
 Import ListNotations.
 Local Open Scope N_scope.
 
 (* [sync]: the harness's runBackup transcription (hook VerifC37RunBackup) is textually
    the tail of the real runBackup *)
-Record case := { nkeys : N; ops : list op; sync : bool; impl : list obs }.
+(* [skind], [bkind]: the NeedleMapper implementation of the source volume (volume server
+   -index=memory|leveldb|leveldbMedium|leveldbLarge) and the one the backup volume is
+   re-opened with for the reads: 0 NeedleMapInMemory, 1 NeedleMapLevelDb,
+   2 NeedleMapLevelDbMedium, 3 NeedleMapLevelDbLarge.  They are inputs of the REAL run
+   only: the model has no such parameter, [check] never looks at them
+   (check_kind_irrelevant below), i.e. the same model answers — reads, sizes, revisions
+   and every single .idx entry — are demanded from every kind.
+   [sidx]: the entries (key, byte offset, Size) of the source's .idx file after EVERY
+   operation of [ops]; [bidx]: those of the backup's .idx after every backup run. *)
+Record case := { nkeys : N; skind : N; bkind : N; ops : list op; sync : bool; impl : list obs;
+                 sidx : list (list idx_entry); bidx : list (list idx_entry) }.
 
 Definition read_eqb (a b : option (N * N)) : bool :=
   match a, b with
@@ -30,6 +40,11 @@ Definition obs_eqb (a b : obs) : bool :=
   (o_sdat a =? o_sdat b) && (o_bdat a =? o_bdat b) && (o_srev a =? o_srev b) && (o_brev a =? o_brev b)
   && (o_sidx a =? o_sidx b) && (o_bidx a =? o_bidx b)
   && all2 read_eqb (o_sreads a) (o_sreads b) && all2 read_eqb (o_breads a) (o_breads b).
+
+Definition entry_eqb (a b : idx_entry) : bool :=
+  let '(k, off, sz) := a in let '(k', off', sz') := b in
+  (k =? k') && (off =? off') && (sz =? sz')%Z.
+Definition idx_eqb (a b : list idx_entry) : bool := all2 entry_eqb a b.
 
 Definition is_some {A} (x : option A) : bool := match x with Some _ => true | None => false end.
 
@@ -51,11 +66,18 @@ Fixpoint prefix_to_fail (h : list op) (obs : list obs) : list op :=
   end.
 
 Definition check (c : case) : outcome :=
-  {| o_corr := sync c && hist_ok (ops c) && all2 obs_eqb (run (nkeys c) init (ops c)) (impl c);
+  {| o_corr := sync c && hist_ok (ops c) && all2 obs_eqb (run (nkeys c) init (ops c)) (impl c)
+               && all2 idx_eqb (run_sidx init (ops c)) (sidx c) && all2 idx_eqb (run_bidx init (ops c)) (bidx c);
      (* the property itself, on the implementation's answers: after every backup run
         the backup serves exactly what the source serves *)
      o_prop := forallb prop_ok (impl c);
      o_trig := trigger (prefix_to_fail (ops c) (impl c));
      o_nontrivial := existsb (fun o => existsb is_some (o_sreads o)) (impl c) |}.
+
+(* the expected answers do not depend on the needle-map kinds *)
+Lemma check_kind_irrelevant : forall c sk bk',
+  check {| nkeys := nkeys c; skind := sk; bkind := bk'; ops := ops c; sync := sync c; impl := impl c;
+           sidx := sidx c; bidx := bidx c |} = check c.
+Proof. reflexivity. Qed.
 
 Definition summarize_cases (l : list case) : summary := summarize check l.
